@@ -25,6 +25,14 @@ def check(repo: Repo, rep, tier):
     callee_by_value(repo, rep)
     align_window(repo, rep)
     key_routing(repo, rep)
+    argument_agree(repo, rep)
+    from .C02 import frame_locals
+
+    frame_locals(repo, rep)
+    from .C03 import char_units, range_prov
+
+    range_prov(repo, rep)
+    char_units(repo, rep)
     stale_bindings(repo, rep, {n for (rel, n), w in __import__("sa.rules.common", fromlist=["rebound_globals"]).rebound_globals(repo).items() if any(x.startswith("_compare_context.py::compare_context:") for x in w)}, "e.g. a copied compare-only flag stays False while a list is aligned, so nested snapshots are committed to the elements they are merely tried against", strict_rebinders=("_compare_context.py::compare_context",))
 
 
@@ -726,3 +734,59 @@ def key_routing(repo: Repo, rep):
                     rep.ok("R-KEY-ROUTING", f, n.ast, "recursion only for keys present in the old value")
         if not keyed:
             rep.violation("R-KEY-ROUTING", f, f.node, f"{f.qualname}: no recursion get_adapter(...).assign() on the `key in old` side of a membership test - values of keys present in both are not compared element-wise", construct=f"{f.qualname}:no-keyed-recursion")
+
+
+def argument_agree(repo: Repo, rep):
+    rep.rule(
+        "R-ARGUMENT-AGREE",
+        "sibling agreement inside a call adapter: `argument(value, i)` hands assign() the OLD value of the i-th argument in the same form in which "
+        "`arguments(new_value)` hands it the NEW one - for every positional argument that arguments() builds as `Argument(value=<E>)`, the branch "
+        "`pos_or_name == i` of argument() returns the same expression <E> (over its own value parameter).  get_adapter() picks the element-wise adapter "
+        "only for operands of exactly the same type; `dict(value)` on one side and the defaultdict itself on the other makes every fix regenerate the whole "
+        "argument and drop the text of its unchanged entries",
+    )
+    g = repo.cls("GenericCallAdapter")
+    n = 0
+    for c in repo.subclasses(g):
+        am, gm = c.methods.get("arguments"), c.methods.get("argument")
+        if am is None or gm is None or len(am.params) < 2 or len(gm.params) < 3:
+            continue
+        vparam = am.params[1]
+        exprs = None
+        for r in [x for x in body_nodes(am.node) if isinstance(x, ast.Return) and isinstance(x.value, ast.Tuple) and len(x.value.elts) == 2 and isinstance(x.value.elts[0], ast.List)]:
+            lst = r.value.elts[0].elts
+            if lst and all(isinstance(e, ast.Call) and norm(e.func) == "Argument" for e in lst):
+                exprs = []
+                for e in lst:
+                    v = e.args[0] if e.args else next((k.value for k in e.keywords if k.arg == "value"), None)
+                    exprs.append(norm(v) if v is not None else None)
+        if not exprs:
+            continue
+        gv, gk = gm.params[1], gm.params[2]
+        gcfg = cfg_of(gm)
+        for i, want in enumerate(exprs):
+            if want is None:
+                continue
+            n += 1
+            want_g = want.replace(vparam, gv) if vparam != gv else want
+            conds = [(cn, "T" if isinstance(cn.ast.ops[0], ast.Eq) else "F") for cn in gcfg.conds() if isinstance(cn.ast, ast.Compare) and len(cn.ast.ops) == 1 and isinstance(cn.ast.ops[0], (ast.Eq, ast.NotEq)) and norm(cn.ast.left) == gk and isinstance(cn.ast.comparators[0], ast.Constant) and cn.ast.comparators[0].value == i]
+            rets = []
+            for cn, lab in conds:
+                reg = reach(gcfg, [b for b, l in cn.succ if l == lab], blocked_nodes=[x for x, _ in conds if x is not cn])
+                rets += [x for x in reg if x.kind == "stmt" and isinstance(x.ast, ast.Return) and x.ast.value is not None and any(b is x for b, l in cn.succ if l == lab)]
+            if not rets:
+                continue  # other idiom (lookup table, getattr): nothing to compare textually
+            got = norm(rets[0].ast.value)
+            if got == want_g:
+                rep.ok("R-ARGUMENT-AGREE", gm, rets[0].ast, f"{c.name}: argument({i}) and arguments()[{i}] are both `{want_g}`")
+            else:
+                rep.violation(
+                    "R-ARGUMENT-AGREE",
+                    gm,
+                    rets[0].ast,
+                    f"{c.name}.argument(value, {i}) returns `{got}` while arguments() passes `{want_g}` for the same argument: old and new operand of assign() differ in type, get_adapter() falls back to the whole-value adapter and every fix regenerates the complete argument (unchanged hand-written entries lose their text)",
+                    construct=f"{c.name}.argument:{i}",
+                )
+    rep.count("positional_argument_pairs", n)
+    if n == 0:
+        rep.ok("R-ARGUMENT-AGREE", repo.lookup_method(g, "assign"), None, "no adapter builds positional arguments from literal Argument(...) lists", site="call adapters: argument()/arguments()")
